@@ -6,26 +6,39 @@ pub struct Counting;
 
 static LIVE: AtomicUsize = AtomicUsize::new(0);
 static PEAK: AtomicUsize = AtomicUsize::new(0);
+/// counting is switched on only around the measurement window: shared counters are a
+/// contention point for 16 allocating worker threads
+static ENABLED: std::sync::atomic::AtomicBool = std::sync::atomic::AtomicBool::new(false);
+
+pub fn enable(on: bool) {
+    ENABLED.store(on, Ordering::SeqCst);
+}
 
 unsafe impl GlobalAlloc for Counting {
     unsafe fn alloc(&self, l: Layout) -> *mut u8 {
         let p = System.alloc(l);
-        if !p.is_null() {
-            let now = LIVE.fetch_add(l.size(), Ordering::Relaxed) + l.size();
-            PEAK.fetch_max(now, Ordering::Relaxed);
+        if !p.is_null() && ENABLED.load(Ordering::Relaxed) {
+            let now = LIVE.fetch_add(l.size(), Ordering::Relaxed).wrapping_add(l.size());
+            if now < (1 << 62) {
+                PEAK.fetch_max(now, Ordering::Relaxed);
+            }
         }
         p
     }
     unsafe fn dealloc(&self, p: *mut u8, l: Layout) {
         System.dealloc(p, l);
-        LIVE.fetch_sub(l.size(), Ordering::Relaxed);
+        if ENABLED.load(Ordering::Relaxed) {
+            LIVE.fetch_sub(l.size(), Ordering::Relaxed);
+        }
     }
     unsafe fn realloc(&self, p: *mut u8, l: Layout, new: usize) -> *mut u8 {
         let q = System.realloc(p, l, new);
-        if !q.is_null() {
+        if !q.is_null() && ENABLED.load(Ordering::Relaxed) {
             if new >= l.size() {
-                let now = LIVE.fetch_add(new - l.size(), Ordering::Relaxed) + (new - l.size());
-                PEAK.fetch_max(now, Ordering::Relaxed);
+                let now = LIVE.fetch_add(new - l.size(), Ordering::Relaxed).wrapping_add(new - l.size());
+                if now < (1 << 62) {
+                    PEAK.fetch_max(now, Ordering::Relaxed);
+                }
             } else {
                 LIVE.fetch_sub(l.size() - new, Ordering::Relaxed);
             }
@@ -39,9 +52,11 @@ pub fn live() -> usize {
 }
 /// reset the peak to the current live value and return that value
 pub fn reset_peak() -> usize {
-    let l = LIVE.load(Ordering::Relaxed);
-    PEAK.store(l, Ordering::Relaxed);
-    l
+    // start a fresh window: live bytes are counted relative to this point
+    let base = 1usize << 40;
+    LIVE.store(base, Ordering::SeqCst);
+    PEAK.store(base, Ordering::SeqCst);
+    base
 }
 pub fn peak() -> usize {
     PEAK.load(Ordering::Relaxed)
